@@ -262,7 +262,10 @@ deriving DecidableEq, Repr
 
 def findQ (qs : List Query) (id : Nat) : Option Query := qs.find? (fun q => q.id == id)
 
-def setQ (qs : List Query) (q : Query) : List Query := qs.map (fun x => if x.id == q.id then q else x)
+/-- replace the (first) query with `q`'s id — the one `findQ` returns. -/
+def setQ : List Query → Query → List Query
+  | [], _ => []
+  | x :: r, q => if x.id == q.id then q :: r else x :: setQ r q
 
 def stepQ (c : Cons) (s : QS) : QEv → Option QS
   | .height id sim explicit =>
